@@ -5,10 +5,14 @@
      cosmology.py        RedshiftBinningFactory.linear / comoving / logspace,
                          Scales._set_scales, Angular/Physical/ComovingScales._compute_angle
      binning.py          parse_binning
-   Every function that has a defect on the pinned commit takes a flag [fx]:
-     fx = false : the code as it is      (the CURRENT model)
-     fx = true  : the repaired algorithm (the REPAIRED model; theorems are about this one)
-   The defect sites are marked "(Fnn)".
+   Every function that has a defect on the pinned commit (462b5d4) takes a flag [fx]:
+     fx = false : the code of the pinned commit (the CURRENT model)
+     fx = true  : the repaired algorithm        (the REPAIRED model; theorems are about this one)
+   The defect sites: config_eq (F14, rbin_num), factory_cosmo (F15, modify drops / does not parse
+   the cosmology), modify_binning (F20, KeyError on custom edges), mapped (F19, end points of
+   comoving / logspace edges mapped back instead of assigned; repaired in /repo by 53b0b79),
+   from_dict (custom edges not restorable; repaired in /repo by cd08e63), parse_cosmology
+   (CustomCosmology instances refused with TypeError).
 
    ORACLES (Section Context below, nothing else is assumed):
      Dc  cos z : comoving distance D_C(z) [Mpc] of cosmology number cos
@@ -108,9 +112,17 @@ Definition lin_point (a b : Q) (n i : nat) : Q :=
   if (i =? 0)%nat then a else if (i =? n)%nat then b else a + qn i * lin_step a b n.
 Definition linear_edges (a b : Q) (n : nat) : list Q := map (lin_point a b n) (seq 0 (S n)).
 
-(* a grid that is linear in D(z) and mapped back with Dinv: comoving and logspace *)
+(* a grid that is linear in D(z) and mapped back with Dinv: comoving and logspace.
+   Pinned commit (F19): every point is mapped back, the end points included. *)
 Definition mapped_edges (D Dinv : Q -> Q) (a b : Q) (n : nat) : list Q :=
   map Dinv (linear_edges (D a) (D b) n).
+(* repaired: edges[0], edges[-1] = min, max after the mapping (in this order) *)
+Definition snapped_point (D Dinv : Q -> Q) (a b : Q) (n i : nat) : Q :=
+  if (i =? n)%nat then b else if (i =? 0)%nat then a else Dinv (lin_point (D a) (D b) n i).
+Definition snapped_edges (D Dinv : Q -> Q) (a b : Q) (n : nat) : list Q :=
+  map (snapped_point D Dinv a b n) (seq 0 (S n)).
+Definition mapped (fx : bool) (D Dinv : Q -> Q) (a b : Q) (n : nat) : list Q :=
+  if fx then snapped_edges D Dinv a b n else mapped_edges D Dinv a b n.
 
 (* parse_binning: one-dimensional, at least two edges, np.diff > 0 everywhere *)
 Fixpoint strict_incb (l : list Q) : bool :=
@@ -208,15 +220,15 @@ Definition parse_cosmology (fx : bool) (a : cosmo_arg) : outcome nat :=
 Section Oracles.
 Context (Dc : nat -> Q -> Q) (Dci : nat -> Q -> Q) (Lg Ex : Q -> Q).
 
-Definition comoving_edges (cos : nat) (a b : Q) (n : nat) : list Q := mapped_edges (Dc cos) (Dci cos) a b n.
-Definition logspace_edges (a b : Q) (n : nat) : list Q := mapped_edges Lg Ex a b n.
+Definition comoving_edges (fx : bool) (cos : nat) (a b : Q) (n : nat) : list Q := mapped fx (Dc cos) (Dci cos) a b n.
+Definition logspace_edges (fx : bool) (a b : Q) (n : nat) : list Q := mapped fx Lg Ex a b n.
 
 (* RedshiftBinningFactory(cosmology).get_method(method): BinMethodAuto(method) *)
-Definition gen_edges (cos : nat) (m : method) (a b : Q) (n : nat) : option (list Q) :=
+Definition gen_edges (fx : bool) (cos : nat) (m : method) (a b : Q) (n : nat) : option (list Q) :=
   match m with
   | MLinear => Some (linear_edges a b n)
-  | MComoving => Some (comoving_edges cos a b n)
-  | MLogspace => Some (logspace_edges a b n)
+  | MComoving => Some (comoving_edges fx cos a b n)
+  | MLogspace => Some (logspace_edges fx a b n)
   | MCustom | MUnknown => None
   end.
 
@@ -225,14 +237,14 @@ Definition mk_binning (e : list Q) (m : method) (cl : closed_t) : outcome binnin
   if valid_edges e then Ok (mkBinning e m cl) else Rejected.
 
 (* BinningConfig.create *)
-Definition create_binning (cos : nat) (zmin zmax : option Q) (nb : option nat) (m : option method)
+Definition create_binning (fx : bool) (cos : nat) (zmin zmax : option Q) (nb : option nat) (m : option method)
            (edges : option (list Q)) (cl : option closed_t) : outcome binning :=
   let cl := default ClRight cl in
   match zmin, zmax with
   | Some a, Some b =>                        (* generate; edges, if given, are ignored *)
       match cl with
       | ClUnknown => Rejected
-      | _ => match gen_edges cos (default MLinear m) a b (default 30%nat nb) with
+      | _ => match gen_edges fx cos (default MLinear m) a b (default 30%nat nb) with
              | None => Rejected
              | Some e => mk_binning e (default MLinear m) cl
              end
@@ -248,7 +260,7 @@ Definition create_binning (cos : nat) (zmin zmax : option Q) (nb : option nat) (
 Definition create (fx : bool) (p : params) : outcome config :=
   cos <- parse_cosmology fx (p_cosmo p) ;;
   s <- create_scales (p_rmin p) (p_rmax p) (p_unit p) (p_rweight p) (p_resolution p) ;;
-  b <- create_binning cos (p_zmin p) (p_zmax p) (p_num_bins p) (p_method p) (p_edges p) (p_closed p) ;;
+  b <- create_binning fx cos (p_zmin p) (p_zmax p) (p_num_bins p) (p_method p) (p_edges p) (p_closed p) ;;
   Ok (mkConfig s b cos (norm_workers (p_workers p))).
 
 (* ------------------------------------------------------------------ modify: two code paths *)
@@ -296,7 +308,7 @@ Definition modify_binning (fx : bool) (own : nat) (b : binning) (m : mods) : out
               | MCustom => if fx then mk_binning (b_edges b) MCustom cl else Crashed KeyErr   (* F20 *)
               | _ =>
                   cos <- factory_cosmo fx own (m_cosmo m) meth ;;
-                  create_binning cos (Some (default (zmin_of b) (m_zmin m)))
+                  create_binning fx cos (Some (default (zmin_of b) (m_zmin m)))
                                  (Some (default (zmax_of b) (m_zmax m)))
                                  (Some (default (nbins_of b) (m_num_bins m)))
                                  (Some meth) None (Some cl)
@@ -382,7 +394,7 @@ Definition from_dict (fx : bool) (d : cdict) : outcome config :=
                         | None => Rejected
                         end
              else Rejected
-        else create_binning cos (d_zmin d) (d_zmax d) (d_num_bins d) (Some (d_method d)) (d_edges d)
+        else create_binning fx cos (d_zmin d) (d_zmax d) (d_num_bins d) (Some (d_method d)) (d_edges d)
                             (Some (d_closed d))) ;;
   Ok (mkConfig s b cos (norm_workers (d_workers d))).
 
@@ -470,7 +482,7 @@ Definition config_same (a b : config) : bool :=
 Definition agree (mo : outcome config) (o : obs config) : bool :=
   match mo, o with
   | Ok c, OOk c' => config_close c c'
-  | Rejected, ORaised (ExConfig | ExValue | ExType) => true
+  | Rejected, ORaised _ => true          (* refused by raising; the class is not compared *)
   | Crashed KeyErr, ORaised ExKey => true
   | Crashed AttrErr, ORaised ExAttr => true
   | Crashed TypeErr, ORaised ExType => true
